@@ -46,7 +46,11 @@ def diagnose (c : Kan.Case) (k : KState) (down : List String) : String :=
     let hasCustom := k.layout.states.any fun s => match s with | .custom .. => true | _ => false
     let stale := (k.unmoddedKeys ++ k.unshiftedKeys).map toString
     let mouseBusy := k.scroll.isSome || k.hscroll.isSome || k.moveV.isSome || k.moveH.isSome
-    if !hasCustom && ((!stale.isEmpty && down.all fun d => stale.contains d || d.startsWith "btn") ||
+    -- a stale unmod/unshift key that caps-word capitalises keeps caps-word alive (every tick finds a
+    -- key to capitalise and restarts its timeout): LShift then stays down with it and kanata never
+    -- reports idle - the same lost release, one step further
+    let capsShift := if k.capsWord.isSome then [toString k.mods.lsft] else []
+    if !hasCustom && ((!stale.isEmpty && down.all fun d => stale.contains d || capsShift.contains d || d.startsWith "btn") ||
         (stale.isEmpty && !down.isEmpty && down.all (·.startsWith "btn")) ||
         (down.isEmpty && mouseBusy)) then
       "model: lost-custom-release (an effect of a custom action - unmod/unshift key, mouse button, wheel or pointer movement - is still active with no custom state left to release it)"
